@@ -16,6 +16,7 @@ mod worldx;
 use mc::{json, Level, Report, Value};
 use rayon::prelude::*;
 use std::collections::{BTreeMap, HashMap, HashSet};
+use warp_core::causal_wal::WalStorePort;
 
 use fixtures::*;
 use worldx::*;
@@ -32,7 +33,7 @@ struct TransOut {
     committed: bool,
 }
 
-fn run_transition(fx: &Fx, hist: &[Op], op: &Op) -> TransOut {
+fn rebuild<'a>(fx: &'a Fx, hist: &[Op]) -> World<'a> {
     let mut w = World::new(fx);
     for o in hist {
         w.step(o);
@@ -40,18 +41,43 @@ fn run_transition(fx: &Fx, hist: &[Op], op: &Op) -> TransOut {
     w.record = true;
     w.heavy = true;
     w.out = StepOut::default();
+    w
+}
+
+/// Execute `op` from the state reached by `hist`.  `slot` may hold a world already in exactly that
+/// state (left there by a previous operation that changed nothing: same key, no commit, no fault);
+/// otherwise the state is rebuilt by re-executing the history.  The world is put back into `slot`
+/// only if this operation, too, changed nothing.
+fn run_transition<'a>(fx: &'a Fx, hist: &[Op], op: &Op, slot: &mut Option<World<'a>>) -> TransOut {
+    let mut w = match slot.take() {
+        Some(w) => w,
+        None => rebuild(fx, hist),
+    };
+    let key_before = w.key();
+    let frames_before = w.store.inner.read_frames().len();
     w.step(op);
     let mut h2 = hist.to_vec();
     h2.push(op.clone());
-    TransOut {
+    let out = std::mem::take(&mut w.out);
+    let t = TransOut {
         key: w.key(),
         hist: h2,
         root: w.coord.observed_index().root_digest(),
         content: format!("{:?}", w.model.life),
         store_calls: w.last_store_calls,
         committed: w.last_committed,
-        out: w.out,
+        out,
+    };
+    let unchanged = t.key == key_before
+        && !t.committed
+        && t.out.viol.is_empty()
+        && w.store.inner.read_frames().len() == frames_before
+        && !matches!(op, Op::Fault(..) | Op::CrashRecover);
+    if unchanged {
+        w.hist.pop();
+        *slot = Some(w);
     }
+    t
 }
 
 fn merge_out(r: &Report, out: &StepOut, hist: &[Op]) {
@@ -125,8 +151,15 @@ fn explore(r: &Report, fx: &Fx, phase: &str, menu: &[Op], max_depth: usize, cap_
                 if r.over_budget_frac(cap_frac) {
                     return outs;
                 }
+                let mut slot: Option<World> = None;
+                // symmetry: while no request has been recorded the two request ids are interchangeable
+                // (the fixtures differ only in their labels), so the first recorded request is r0 w.l.o.g.
+                let nothing_recorded = !hist.iter().any(|o| matches!(o, Op::Request(_)) || matches!(o, Op::Fault(i, _, _) if matches!(**i, Op::Request(_))));
                 for op in menu.iter().cloned() {
-                    let t = run_transition(fx, hist, &op);
+                    if nothing_recorded && op == Op::Request(1) {
+                        continue;
+                    }
+                    let t = run_transition(fx, hist, &op, &mut slot);
                     let calls = t.store_calls;
                     let committed = t.committed;
                     outs.push(t);
@@ -134,7 +167,8 @@ fn explore(r: &Report, fx: &Fx, phase: &str, menu: &[Op], max_depth: usize, cap_
                         for k in 0..calls {
                             for mode in [Mode::Fail, Mode::Crash, Mode::AckLost] {
                                 let f = Op::Fault(Box::new(op.clone()), k as u8, mode);
-                                outs.push(run_transition(fx, hist, &f));
+                                let mut none = None;
+                                outs.push(run_transition(fx, hist, &f, &mut none));
                             }
                         }
                     }
@@ -254,6 +288,8 @@ fn main() {
               acknowledgement is lost (process dies); partial persistence of a single store call is covered only by the thorough filesystem byte-prefix pass.");
     r.assume("ordinary WAL recovery of an uncommitted tail = recover_in_memory_store(Writable) (tail truncation), as documented in ADR 0026; \
               BLAKE3 collisions are not modelled; request universe = 2 ids, settlement byte budget 16.");
+    r.assume("symmetry reduction: while no request has been recorded the two request ids are interchangeable (fixtures differ only in labels), \
+              so the first recorded request is r0 w.l.o.g.; every later choice is explored for both ids.");
     if let Some(p) = r.replay.clone() {
         replay(&r, &fx, &p);
         r.finish();
